@@ -23,7 +23,8 @@ TIE_THEOREMS = ["Tie.Command.%s" % n for n in
                ["Tie.Special.%s" % n for n in
                 ("specialParam_tie", "specialNoParam_tie", "shortSpecial_tie", "shortSpecialMask_tie",
                  "initialiseAddr_tie", "initialiseBroadcastAddr_tie", "initialiseBroadcast_tie",
-                 "initialiseUnaddressed_tie", "special_rows_traced")]
+                 "initialiseUnaddressed_tie", "special_rows_traced", "devSpecial0_tie", "devSpecial1_tie",
+                 "devSpecial2_tie", "devSpecial_rows_traced")]
 THEOREMS = ["table_conforms", "rows_registered", "frame_is_standard", "frame_is_standard_gen",
             "extended_commands_carry_devicetype", "address_patterns"]
 TRUSTED = ["Spec/IEC62386.lean: 322 rows of the IEC 62386 command tables (parts 102, 103, 202, 205, 206, 207, 209, "
